@@ -24,7 +24,7 @@ pub static DEF: PropDef = PropDef {
     id: "C09",
     level: "exploration",
     engine: "compaction",
-    rule: "one run = a real Compactor::run loop (check_interval 60 s, gc grace 0/5/60/300 s, retention 1/7/90 days) and a real QueryNode sharing one ChunkPinRegistry on one node, over the object-store catalog, on a generated dataset with mergeable recent L0 chunks plus chunks entirely older than, entirely newer than, straddling, and about to cross the retention cut-off; 2..6 queries issued at drawn instants (their chunk reads are scheduling points, so a GC pass can be interleaved with a query at any request), optional compactor crash+restart at a drawn request (pending deletions must survive), optional backward wall-clock jump (BoundedClock must mask it); 30..90 virtual minutes; distinct = distinct decision sequence; non-trivial = completed AND at least one data file was deleted or one retention removal happened",
+    rule: "one run = a real Compactor::run loop (check_interval 60 s, gc grace 0/5/60/300 s, retention 1/7/90 days) and a real QueryNode sharing one ChunkPinRegistry on one node, over the object-store catalog, on a generated dataset with mergeable recent L0 chunks plus chunks entirely older than, entirely newer than, straddling, about to cross, and ending a drawn 1..170 minutes inside the retention cut-off; 2..6 queries issued at drawn instants (their chunk reads are scheduling points, so a GC pass can be interleaved with a query at any request), optional compactor crash+restart at a drawn request (pending deletions must survive), optional backward wall-clock jump (BoundedClock must mask it); 30..90 virtual minutes; distinct = distinct decision sequence; non-trivial = completed AND at least one data file was deleted or one retention removal happened",
     quick_runs: 1500,
     thorough_runs: 12_000,
     run_cap_ms: 90_000,
@@ -110,6 +110,10 @@ fn scen(_spec: RunSpec) -> ScenFut {
         for i in 0..n_recent {
             spans.push((recent_bucket + i as i64 * 60 * SEC, recent_bucket + i as i64 * 60 * SEC + 30 * SEC, "recent"));
         }
+        // a chunk whose newest row is a drawn 1..170 minutes inside the window at the start: the cut-off passes it
+        // during some runs and stops just short of it in others (a cut-off rounded to a coarser unit removes it early)
+        let edge_min = sim::w_range(1, 170) as i64;
+        spans.push((cutoff0 - 3 * HOUR, cutoff0 + edge_min * 60 * SEC, "edge"));
         let mut seed_meta: BTreeMap<String, (i64, i64, String)> = BTreeMap::new();
         let mut seeds: Vec<SeedChunk> = Vec::new();
         for (k, (mn, mx, kind)) in spans.iter().enumerate() {
